@@ -113,6 +113,8 @@ def values_of(kind, n, form):
         vals = [0] + [base + 10 * i for i in range(1, n)]
         if form == "nparray":
             return vals, f"numpy.array({vals})"
+        # literal lists are NOT ascending (seeded variant C05_3: labels sorted, runs in declaration order)
+        vals = vals[1:][::-1] + vals[:1] if kind == "A1" else vals[::-1]
         return vals, list(vals)
     if kind == "B1":
         if form == "nprange":
@@ -123,7 +125,7 @@ def values_of(kind, n, form):
             return vals, f"numpy.array({vals})"
         return vals, list(vals)
     if kind == "V1x2":
-        vals = [[1 + s + 2 * i, 2 + 2 * i] for i in range(n)]
+        vals = [[1 + s + 2 * i, 2 + 2 * i] for i in range(n)][::-1]          # descending
     elif kind == "V1x3":
         vals = [[1 + s + 3 * i, 2 + 3 * i, 3 + 3 * i] for i in range(n)]
     elif kind == "V2x3":
